@@ -10,10 +10,13 @@
 (*   inp   1 iff the pass still has input to process (caller's or buffered), 0 otherwise         *)
 (* Every function is a set-valued operator (all outcomes the real function can have for some     *)
 (* data): a write may use up any amount of room, a kernel may stop because its buffer is full.   *)
-(* The same operators give (a) the Next relation model-checked by TLC (safety: END only after    *)
-(* end_of_stream; liveness: with end_of_stream set and room offered again and again the stream   *)
-(* reaches END) and (b) the per-call relation CallEnds used to validate recorded call histories  *)
-(* of the real library (TraceDeflate: rule M1 "state transition not possible in the model").     *)
+(* The same operators give (a) the Next relation model-checked by TLC (safety: END and the        *)
+(* trailer only after end_of_stream) and (b) the per-call relation CallEnds used to validate     *)
+(* recorded call histories of the real library (TraceDeflate: rule M1 "state transition not      *)
+(* possible in the model").  Termination is NOT decided on this model: with the data abstracted  *)
+(* away a write may stay in its state for any number of calls; it is decided per recorded call   *)
+(* (TraceDeflate D9: no two consecutive calls without consuming or producing; D10: END reached) *)
+(* together with the bound on total output (C10).                                               *)
 EXTENDS Naturals, FiniteSets, TLC
 
 States == {"NEW_HDR", "HDR", "CREATE_HDR", "BODY", "FLUSH_READ_BUFFER", "FLUSH_ICF_BUFFER", "TYPE0_HDR", "TYPE0_BODY",
